@@ -104,6 +104,14 @@ class _EqRaises:
     return False
 
 
+class _StrSub(str):
+  pass
+
+
+class _ListSub(list):
+  pass
+
+
 def bad_value(i):
   vals = [
       lambda: 3, lambda: 0, lambda: 1.5, lambda: ('a', 'b'), lambda: {'a': 1}, lambda: b'a',
@@ -218,6 +226,12 @@ def run_program(nodes, observe, captured, labels, yield_now=lambda: None, depth=
           entry, valid = captured[spec[1] % len(captured)], True
         else:
           entry, valid = [], True
+      elif spec[0] == 'strsub':
+        # an instance of a str subclass (a `class Mode(str, Enum)` member, a path-like str) is a name
+        entry, valid = _StrSub(spec[1]), True
+      elif spec[0] == 'listsub':
+        # ... and an instance of a list subclass is an explicit scope
+        entry, valid = _ListSub(spec[1]), True
       elif spec[0] == 'stored':
         if observe.stash:
           entry, stored_cm = observe.stash.pop(spec[1] % len(observe.stash))
@@ -264,7 +278,7 @@ def run_program(nodes, observe, captured, labels, yield_now=lambda: None, depth=
         """The with block, as a generator so that it can also be left by GeneratorExit."""
         with (stored_cm if stored_cm is not None else gin.config_scope(entry)) as yielded:
           entered[0] = True
-          model.enter(list(entry) if isinstance(entry, list) else entry)
+          model.enter(list(entry) if isinstance(entry, list) else str(entry) if entry else entry)
           require(yielded == model.current, 'yielded-scope',
                   lambda: f'{spec}: yielded {yielded} model {model.current}')
           captured.append(yielded)
@@ -470,6 +484,8 @@ _spec = st.one_of(
     st.integers(0, 5).map(lambda k: ['captured', k]),
     st.tuples(st.sampled_from(['a', 'b', 'x']), st.booleans()).map(lambda t: ['derived', t[0], t[1]]),
     st.integers(0, 3).map(lambda k: ['stored', k]),
+    st.sampled_from(['a', 'x/y']).map(lambda n: ['strsub', n]),
+    st.sampled_from([['x'], ['a', 'b'], []]).map(lambda l: ['listsub', l]),
     st.just(['none']), st.just(['empty']),
     st.integers(0, N_BAD - 1).map(lambda i: ['bad', i]),
     st.integers(0, N_BAD - 1).map(lambda i: ['bad', i]))
